@@ -1717,7 +1717,10 @@ def variant_alphabet(v, by_id, rng):
         if a["short"]:
             toks.append("-" + a["short"])
         pool = VALUE_POOL[a["ty"]]
-        vals.update(rng.sample(pool, min(3, len(pool))))
+        if a["ty"] in ("f32", "f64"):
+            vals.update(pool)          # decimal -> binary rounding has its own corner cases: try them all
+        else:
+            vals.update(rng.sample(pool, min(3, len(pool))))
         vals.add(pool[0])
     shorts = [a["short"] for a in v["args"] if a["short"]]
     if len(shorts) >= 2:
